@@ -3,7 +3,7 @@ from __future__ import annotations
 
 import ast
 
-from ..cfg import typestate, witness_path
+from ..cfg import KILL, typestate, witness_path
 from ..core import INCONCLUSIVE, OK, VIOLATION, Ctx, Ob, is_self_attr
 from ..model import AnalysisError, norm
 from .common import consult_verdict, sc_flag_names, active_store, calls_method, cond_consult, node_has_effect, stop_call_kind
@@ -278,6 +278,8 @@ def engine_typestate(ctx: Ctx, f, rule="R05.4", between_generations: bool = True
         if verdict is not None:
             if verdict:
                 return ("STOPPING", s[1])
+            if s[0] == "STOPPING" and n.kind == "cond" and isinstance(n.ast, ast.Name):
+                return KILL  # the name holds the verdict that was observed true on this path: its false edge is infeasible
             return ("CLEAN" if s[0] != "STOPPING" else "STOPPING", s[1])
         if s[0] == "FLAGGED" and lab is False and cond_consult(ctx, f, n, "gsc") == 3:
             return ("CLEAN", s[1])  # the flag holding the latest verdict is false
